@@ -615,6 +615,13 @@ func (broker *Broker) scan() []sts.Hashed {
 			// Add any that might have failed the hash calculation last time
 			wrapped = append(wrapped, &hashFile{File: cached})
 		case cached.IsDone() && broker.canDelete(cached):
+			// Only the file that was confirmed may be deleted: a file found
+			// under this name that differs from the cached one is new content
+			// (it is picked up as changed) and must not be touched
+			if changed, syncErr := store.Sync(cached); changed != nil ||
+				(syncErr != nil && !store.IsNotExist(syncErr)) {
+				break
+			}
 			err = broker.Conf.Store.Remove(cached)
 			if err != nil {
 				broker.error("Failed to delete aged file:", cached.GetName())
